@@ -28,7 +28,8 @@ def dict_types(ins):
     return has
 
 
-def run(ctx):
+def run(ctx, props=PROPS, random_only=False, nrand=None):
+    PROPS = props
     quick = ctx.quick()
     with Lock():
         cres = run_genconsts()
@@ -42,7 +43,9 @@ def run(ctx):
     if not berr:
         import randschema
         corpus = [c for c in repo_corpus(quick) if not (quick and c[0] == 'goldmaster')]
-        units = prepare_units(ctx, corpus + randschema.make_specs(ctx, 8 if quick else 50), bins)
+        if random_only:
+            corpus = []
+        units = prepare_units(ctx, corpus + randschema.make_specs(ctx, nrand or (8 if quick else 50)), bins)
     log('[C02] units ready', round(time.time() - ctx.t0))
     nvals = 4 if quick else 40
     nmut = 8 if quick else 40
